@@ -14,7 +14,8 @@
 (* Contract : on the truth table only (strict containment + depth).          *)
 EXTENDS Common, Json
 
-CONSTANTS MaxSeg, MaxDepth, SelIdx, ValIdx, NameIdx, Fillers, Loose, SemiInParens
+CONSTANTS MaxSeg, MaxDepth, SelIdx, ValIdx, NameIdx, Fillers, Loose, SemiInParens,
+          NoSemi       \* also generate a last declaration that is terminated by the end of the body (C17 only)
 
 Sels == <<"a", "a:hover", "@media (min-width: 10px)", "a::before", "b[x=\"{\"]", ".c > d">>
 Names == <<"color", "--v", "$v", "margin">>
@@ -31,7 +32,7 @@ Step == nseg < MaxSeg /\ nseg' = nseg + 1
 L == Len(doc)
 Node(k, s, brace, cb, e, ne, colon, vs, ve, semi) ==
     [k |-> k, s |-> s, brace |-> brace, cb |-> cb, e |-> e, ne |-> ne, colon |-> colon, vs |-> vs, ve |-> ve, semi |-> semi,
-     d |-> Len(open), parent |-> IF open = <<>> THEN 0 ELSE Last(open)]
+     d |-> Len(open), parent |-> IF open = <<>> THEN 0 ELSE Last(open), ns |-> FALSE]
 Ev(t, s, e, dl) == [t |-> t, s |-> s, e |-> e, dl |-> dl]
 
 OpenRule == /\ Step /\ Len(open) < MaxDepth
@@ -62,8 +63,20 @@ Decl == /\ Step
                 /\ evs' = evs \o <<Ev("propertyName", L, ne, colon), Ev("propertyValue", vs, ve, semi)>>
                 /\ hasF16' = (hasF16 \/ v = BadVal)
         /\ UNCHANGED open
+(* a declaration without semicolon, closed by the "}" of its rule (one step: it must be the last thing in the body) *)
+DeclClose == /\ NoSemi /\ Step /\ open # <<>>
+             /\ \E ni \in NameIdx, vi \in ValIdx :
+                  LET nm == Names[ni] v == Vals[vi]
+                      ne == L + Len(nm)
+                      vs == ne + 1
+                      ve == vs + Len(v)
+                  IN /\ doc' = doc \o nm \o ":" \o v \o "}"
+                     /\ nodes' = [Append(nodes, [Node("d", L, 0, 0, ve, ne, ne, vs, ve, ve) EXCEPT !.ns = TRUE])
+                                   EXCEPT ![Last(open)].cb = ve, ![Last(open)].e = ve + 1]
+                     /\ evs' = evs \o <<Ev("propertyName", L, ne, ne), Ev("propertyValue", vs, ve, ve), Ev("blockEnd", ve, ve + 1, ve)>>
+             /\ open' = Front(open) /\ UNCHANGED hasF16
 Filler == Step /\ (\E t \in Fillers : doc' = doc \o (IF t = "NL" THEN "\n  " ELSE t)) /\ UNCHANGED <<nodes, evs, open, hasF16>>
-Next == OpenRule \/ CloseRule \/ Decl \/ Filler
+Next == OpenRule \/ CloseRule \/ Decl \/ DeclClose \/ Filler
 Spec == Init /\ [][Next]_vars
 Complete == open = <<>> /\ nseg > 0
 
@@ -140,7 +153,8 @@ Positions == 0..Len(doc)
 MatchInv == Complete => \A pos \in Positions : MMatch(1, <<>>, <<>>, pos) = CMatch(pos)
 OutwardInv == Complete => \A pos \in Positions : MOut(1, <<>>, <<>>, pos, <<>>) = COutward(pos)
 TruthInv == \A i \in 1..Len(nodes) : IF nodes[i].k = "r" THEN Ch0(nodes[i].brace) = "{" /\ (nodes[i].cb # -1 => Ch0(nodes[i].cb) = "}")
-                                     ELSE Ch0(nodes[i].colon) = ":" /\ Ch0(nodes[i].semi) = ";" /\ nodes[i].e = nodes[i].semi + 1
+                                     ELSE Ch0(nodes[i].colon) = ":" /\ (IF nodes[i].ns THEN Ch0(nodes[i].ve) = "}" /\ nodes[i].e = nodes[i].ve
+                                                                           ELSE Ch0(nodes[i].semi) = ";" /\ nodes[i].e = nodes[i].semi + 1)
 
 (* ------------------------------------------- editor action helpers (C17) *)
 SelEnd(i) == LET ev == CHOOSE e \in {evs[j] : j \in 1..Len(evs)} : e.t = "selector" /\ e.s = nodes[i].s IN ev.e      \* end of the selector text
@@ -186,7 +200,7 @@ PropsInv == \A r \in 1..Len(nodes) : (nodes[r].k = "r" /\ nodes[r].e # -1) =>
 DumpActions == Complete => PrintT(<<"VEC", ToJson([doc |-> doc, f16 |-> hasF16,
           rules |-> [i \in 1..Len(nodes) |-> IF nodes[i].k = "r" THEN [s |-> nodes[i].s, e |-> nodes[i].e, bs |-> nodes[i].brace + 1, be |-> nodes[i].cb, props |-> Props(i)]
                                               ELSE [s |-> -1, e |-> -1, bs |-> -1, be |-> -1, props |-> <<>>]],
-          items |-> [i \in 1..Len(nodes) |-> [span |-> ItemSpan(i), ranges |-> ItemRanges(i)]],
+          items |-> [i \in 1..Len(nodes) |-> [span |-> ItemSpan(i), ranges |-> ItemRanges(i), nosemi |-> nodes[i].ns]],
           at |-> [p \in 1..(Len(doc) + 1) |-> [sec |-> SectionAt(p - 1), n |-> NextItem(p - 1), p |-> PrevItem(p - 1), ns |-> NextSilent(p - 1)]]])>>)
 
 Dump == Complete => PrintT(<<"VEC", ToJson([doc |-> doc, f16 |-> hasF16, evs |-> evs, nodes |-> nodes,
